@@ -174,15 +174,30 @@ Definition pjson_of (S : schema) (o : p2j_opts) (name : list Z) (m : pmsg) : opt
   end.
 
 (* ---------------------------------------------------------------- byte well-formedness (what any decoded message satisfies) *)
+Definition key_bytes_okb (k : mkey) : bool := match k with KStr s => jbytes_okb s | KInt _ _ => true end.
+
 Fixpoint pj_bytes_okb (p : pj) : bool :=
   match p with
   | PJStr s => jbytes_okb s
   | PJB64 bs => jbytes_okb bs
   | PJArr xs => forallb pj_bytes_okb xs
   | PJObj ms => forallb (fun m => jbytes_okb (fst m) && pj_bytes_okb (snd m)) ms
-  | PJMap _ ms => forallb (fun m => jbytes_okb (key_str (fst m)) && pj_bytes_okb (snd m)) ms
+  | PJMap _ ms => forallb (fun m => key_bytes_okb (fst m) && pj_bytes_okb (snd m)) ms
   | _ => true
   end.
+
+(* the same on the inputs: every string / bytes value and string key of the message is a byte list, every JSON name
+   of the schema is a byte list (true of anything decoded from bytes / parsed from a .proto file) *)
+Fixpoint pval_bytes_okb (v : pval) : bool :=
+  match v with
+  | VScalar _ _ => true
+  | VBytes _ b => jbytes_okb b
+  | VMsg fs => forallb (fun nv => pval_bytes_okb (snd nv)) fs
+  | VList _ vs => forallb pval_bytes_okb vs
+  | VMap kvs => forallb (fun kx => key_bytes_okb (fst kx) && pval_bytes_okb (snd kx)) kvs
+  end.
+Definition schema_bytes_okb (S : schema) : bool :=
+  forallb (fun md => forallb (fun fd => jbytes_okb (fd_json fd)) (md_fields md)) S.
 
 (* every member name that occurs anywhere in a JSON value *)
 Fixpoint json_keys (j : json) : list (list Z) :=
